@@ -180,7 +180,9 @@ class Optic:
         # change geometry from plane to standard
         if isinstance(surface.geometry, Plane):
             cs = surface.geometry.cs
-            new_geometry = StandardGeometry(cs, radius=value, conic=0)
+            # keep a conic constant given to the flat surface before
+            conic = getattr(surface.geometry, 'k', 0)
+            new_geometry = StandardGeometry(cs, radius=value, conic=conic)
             surface.geometry = new_geometry
         else:
             surface.geometry.radius = value
